@@ -142,7 +142,7 @@ def run_mser_check(ctx, module, theorems, fields, monitor, rule):
         elif c['ty'][0] != 'A':
             nontrivial.add(lines[li])
     ctx.streams['mser']['mismatches'] = mism
-    finish_proof(ctx, ok, bool(prop_fail))
+    finish_proof(ctx, ok, bool(prop_fail) or getattr(ctx, 'pre_fail', False))
     ctx.coverage.update({'evaluations': len(lines), 'distinct_nontrivial': len(nontrivial), 'programs': len(progs),
                          'traces_validated_against_impl': len(lines) - mism, 'rule': rule})
     ctx.samples = [lines[0][:300], lines[len(lines) // 2][:300]]
@@ -239,8 +239,51 @@ def monitor_c06(c, ikv, mkv):
     return None
 
 
+def rectag_stream(ctx):
+    """hand-written tags with struct back-references (recursive structs): real mserialize::visit / singular on the tag string
+    vs the tag-string model (correspondence), and vs an independent statement of the expected callbacks (property monitor)"""
+    import gen_rectags as RT
+    exe = build_harness('tag_harness', link_repo=False)
+    rng = random.Random(ctx.seed * 1000003 + 606)
+    n = cases_count(ctx, 3000, 60000)
+    cases = []
+    while len(cases) < n:
+        c = RT.gen_case(rng)
+        if c[3] or rng.random() < 0.2:          # mostly tags with at least one back-reference
+            cases.append(c)
+    lines = ['tagvisit %s %s' % (c[0].hex(), c[1].hex() or '-') for c in cases]
+    impl, model, mism = diff_streams(ctx, 'tagvisit', exe, lines)
+    fails = 0
+    for i, c in enumerate(cases):
+        if i >= len(impl):
+            break
+        kv = parse_kv(impl[i])
+        what = None
+        if kv.get('err') != '-':
+            what = 'visiting a value of the tag %s failed: %s' % (c[0].decode(), kv.get('err'))
+        elif kv.get('rest') != '0':
+            what = 'visiting a value of the tag %s left %s of its %d bytes unconsumed' % (c[0].decode(), kv.get('rest'), len(c[1]))
+        elif kv.get('events') != c[2]:
+            what = 'the callbacks for a value of the tag %s are not the value\'s structure' % c[0].decode()
+        if what:
+            fails += 1
+            if fails <= 3:
+                ctx.violation('c06-rectag-%s' % hashlib.sha256(lines[i].encode()).hexdigest()[:10], 'C06: ' + what,
+                              {'kind': 'input', 'input_line': lines[i], 'tag': c[0].decode(), 'bytes_hex': c[1].hex(), 'impl': impl[i], 'expected_events': c[2]})
+        elif i in mism:
+            ctx.violation('corr-tagvisit-%d' % i, 'correspondence tagvisit broke: model and implementation disagree on case %d' % i,
+                          {'kind': 'correspondence', 'stream': 'tagvisit', 'input_line': lines[i], 'impl': impl[i], 'model': model[i] if i < len(model) else None,
+                           'broken': 'correspondence stream tagvisit / Props.C06'}, found_input=False)
+    ctx.streams['tagvisit'].update({'with_back_reference': sum(1 for c in cases if c[3]), 'property_failures': fails})
+    return fails
+
+
 def check_c06(ctx):
-    return run_mser_check(ctx, 'BinlogVerif.Props.C06', C06_THEOREMS, ['tag', 'bytes', 'events', 'visitrest'], monitor_c06, RULE)
+    ctx.pre_fail = rectag_stream(ctx) > 0
+    return run_mser_check(ctx, 'BinlogVerif.Props.C06', C06_THEOREMS, ['tag', 'bytes', 'events', 'visitrest'], monitor_c06,
+                          RULE + '; plus hand-written tags with struct back-references (recursive and shared structs, names that are prefixes '
+                          'of each other, references below optionals/sequences/tuples) with values to depth 4: real visit/singular on the tag string '
+                          'vs the tag-string model and vs independently computed callbacks (stream tagvisit)')
 
 
 C07_THEOREMS = ['BinlogVerif.C07.c07_render_refines', 'BinlogVerif.C07.c07_render_top', "BinlogVerif.C07.c07_render_top'",
